@@ -207,9 +207,12 @@ def _canon_index(con: sqlite3.Connection) -> dict:
 
 
 def _sec(sec: Any) -> Any:
+    """Section path = titles from H1 (or the untitled H0) down.  Row ids carry
+    no order in zorg's schema (no position column), so sibling ordinals are not
+    part of the canonical form; blocks are told apart by their first line."""
     if sec is None:
         return None
-    return [[o, t] for o, t in sec]
+    return [t for o, t in sec]
 
 
 ###############################################################################
@@ -265,7 +268,7 @@ def _page_notes(page: Any, rel: str) -> list[dict]:
                         "modify": str(n.modify_date)[:10],
                         "status": tp.status.name if tp else None,
                         "priority": tp.priority if tp else None,
-                        "section": [[o, t] for o, t in sec_path],
+                        "section": [t for o, t in sec_path],
                         "block": bmin,
                         "props": dict(sorted((k, str(v)) for k, v in n.properties.items())),
                         "areas": sorted(set(n.areas)),
